@@ -1,4 +1,1160 @@
-//! vconc: engine for C16 (stub)
+//! vconc: engine for property C16 — "ABI connections are safe to create and use concurrently".
+//!
+//! Stateless model checking of the REAL savefile-abi code: closed 1–3 thread harnesses run under
+//! shuttle's engine; our own scheduler enumerates, depth first, ALL schedules with at most p
+//! preemptions (p = 0,1,2,… iterative context bounding). The three global cache mutexes of
+//! savefile-abi are mirrored by shuttle mutexes through the `verif_hooks` callbacks (shim.rs), the
+//! caches are reset at the start of every execution.
+//!
+//! Process structure: the parent (this binary without `--child-*`) runs every scenario × bound
+//! exploration in child processes of itself (a failing execution leaves real mutexes locked or
+//! poisoned; savefile-abi leaks one template per negotiation, so long explorations are cut into
+//! chunks that resume the DFS stack in a fresh process). A failure reported by a child is
+//! replayed twice in two more fresh children before it becomes a violation.
+mod ifaces;
+mod scen;
+mod sched;
+mod shim;
+
+use scen::{Mode, Obs, Scenario};
+use sched::{Level, PbDfs, Replay};
+use shim::{EvKind, ExecLog, LOCK_NAMES, SHIM};
+use std::cell::RefCell;
+use std::collections::{BTreeMap, BTreeSet};
+use std::io::Write;
+use vcommon::serde_json::{self, json, Map, Value};
+
+const MAX_STEPS: usize = 20_000;
+const STACK: usize = 1 << 20;
+
+// ---------------------------------------------------------------------------------------------
+// per-process state of a child (everything runs on one OS thread)
+
+#[derive(Default)]
+struct Tally {
+    executions: u64,
+    new_executions: u64,
+    contended: u64,
+    new_contended: u64,
+    contended_acquisitions: u64,
+    ops: u64,
+    evaluations: u64,
+    validated: u64,
+    schedule_hashes: BTreeSet<u64>,
+    outcomes: BTreeMap<String, u64>,
+    samples: Vec<Value>,
+    last_sample: Option<Value>,
+    max_negotiations_per_key: u64,
+    preemption_histogram: BTreeMap<u32, u64>,
+}
+
+struct ChildCtx {
+    scenario: String,
+    bound: String,
+    prev: Option<u32>,
+    mode: String,
+    reference: Option<Obs>,
+    last: Option<(Obs, ExecLog)>,
+    tally: Tally,
+    stop: bool,
+    failure_printed: bool,
+}
+
+thread_local! {
+    static CHILD: RefCell<Option<ChildCtx>> = const { RefCell::new(None) };
+}
+
+fn with_child<T>(f: impl FnOnce(&mut ChildCtx) -> T) -> T {
+    CHILD.with(|c| f(c.borrow_mut().as_mut().expect("child context")))
+}
+
+fn fnv(path: &[u32]) -> u64 {
+    let mut h: u64 = 0xcbf29ce484222325;
+    for p in path {
+        for b in p.to_le_bytes() {
+            h ^= b as u64;
+            h = h.wrapping_mul(0x100000001b3);
+        }
+    }
+    h
+}
+
+fn path_str(p: &[u32]) -> String {
+    p.iter().map(|x| x.to_string()).collect::<Vec<_>>().join(",")
+}
+
+fn emit(prefix: &str, v: &Value) {
+    let mut out = std::io::stdout().lock();
+    let _ = writeln!(out, "{} {}", prefix, v);
+    let _ = out.flush();
+}
+
+/// One failure line; the first one printed by a child is the child's result.
+fn print_failure(oracle: &str, kind: &str, locks: &str, detail: &str) {
+    let (path, preempt) = SHIM.with(|s| {
+        let s = s.borrow();
+        (s.path.clone(), s.preemptions)
+    });
+    let already = with_child(|c| {
+        let a = c.failure_printed;
+        c.failure_printed = true;
+        c.stop = true;
+        a
+    });
+    if already {
+        return;
+    }
+    let v = with_child(|c| {
+        json!({
+            "scenario": c.scenario, "bound": c.bound, "mode": c.mode,
+            "oracle": oracle, "kind": kind, "locks": locks, "detail": detail,
+            "schedule": path_str(&path), "preemptions": preempt,
+            "executions_before": c.tally.executions,
+        })
+    });
+    emit("F", &v);
+}
+
+/// Called from the acquire callback when a task re-acquires a cache mutex it already holds.
+pub fn report_self_deadlock(task: usize, lock: usize) {
+    print_failure(
+        "deadlock",
+        "self_reentrant",
+        LOCK_NAMES[lock],
+        &format!(
+            "task{} calls Guard::lock on {} while it already holds that mutex: the real std::sync::Mutex never returns (single-thread self-deadlock)",
+            task, LOCK_NAMES[lock]
+        ),
+    );
+}
+
+fn outcome_string(log: &ExecLog) -> String {
+    let neg: Vec<String> = log.negotiations.iter().map(|(k, t)| format!("{}:t{}", k, t)).collect();
+    let mut firsts = vec![];
+    for (li, name) in LOCK_NAMES.iter().enumerate() {
+        let mut order: Vec<usize> = vec![];
+        for (k, t, l) in &log.events {
+            if *k == EvKind::Acquired && *l == li && *t != 0 && !order.contains(t) {
+                order.push(*t);
+            }
+        }
+        if !order.is_empty() {
+            firsts.push(format!("{}:{}", &name[..1], order.iter().map(|t| t.to_string()).collect::<Vec<_>>().join(">")));
+        }
+    }
+    format!("negotiated[{}] first-acquire[{}]", neg.join(","), firsts.join(" "))
+}
+
+fn shuttle_config() -> shuttle::Config {
+    let mut c = shuttle::Config::new();
+    c.stack_size = STACK;
+    c.failure_persistence = shuttle::FailurePersistence::None;
+    c.max_steps = shuttle::MaxSteps::FailAfter(MAX_STEPS);
+    c.silence_warnings = true;
+    // a panicking task must not be followed by further scheduling (a second panic would abort)
+    c.ungraceful_shutdown_config.immediately_return_on_panic = true;
+    c
+}
+
+/// Runs `runner.run(body)` and classifies what shuttle reports.
+fn run_shuttle<S: shuttle::scheduler::Scheduler + 'static>(scheduler: S, body: impl Fn() + Send + Sync + 'static) -> Result<(), (String, String, String, String)> {
+    let runner = shuttle::Runner::new(scheduler, shuttle_config());
+    let r = std::panic::catch_unwind(std::panic::AssertUnwindSafe(|| {
+        runner.run(body);
+    }));
+    match r {
+        Ok(()) => Ok(()),
+        Err(p) => {
+            let msg = if let Some(s) = p.downcast_ref::<&str>() {
+                s.to_string()
+            } else if let Some(s) = p.downcast_ref::<String>() {
+                s.clone()
+            } else {
+                "<non-string panic payload>".to_string()
+            };
+            let last = vcommon::take_last_panic();
+            let (graph, locks) = shim::wait_for_graph();
+            let lock_names = locks.iter().map(|l| LOCK_NAMES[*l]).collect::<Vec<_>>().join(",");
+            if msg.starts_with("deadlock!") {
+                Err(("deadlock".into(), "lock_cycle".into(), lock_names, format!("no task is runnable: {}", graph)))
+            } else if msg.contains("exceeded max_steps") {
+                Err(("livelock".into(), "step_cap".into(), lock_names, format!("more than {} scheduling decisions; {}", MAX_STEPS, graph)))
+            } else {
+                Err(("panic".into(), "panic".into(), lock_names, format!("{} | {}", msg, last)))
+            }
+        }
+    }
+}
+
+fn self_deadlock_seen(log: &ExecLog) -> bool {
+    log.self_deadlock.is_some()
+}
+
+/// One execution under a fixed scheduler (reference runs and replays). Err = failure line data.
+fn run_single(s: &'static Scenario, mode: Mode, choices: Vec<u32>, plugin: Option<String>) -> (Option<(Obs, ExecLog)>, Option<(String, String, String, String)>, sched::ReplayShared) {
+    let sch = Replay::new(choices);
+    let shared = sch.shared.clone();
+    with_child(|c| c.last = None);
+    let r = run_shuttle(sch, move || {
+        shim::begin_execution();
+        let obs = scen::run_body(s, &mode, &plugin);
+        let log = shim::end_execution();
+        with_child(|c| c.last = Some((obs, log)));
+    });
+    let last = with_child(|c| c.last.take());
+    let sh = std::mem::take(&mut *shared.borrow_mut());
+    (last, r.err(), sh)
+}
+
+fn leak_scenario(id: &str) -> &'static Scenario {
+    match scen::by_id(id) {
+        Some(s) => Box::leak(Box::new(s)),
+        None => vcommon::machinery_error(&format!("unknown scenario {}", id)),
+    }
+}
+
+/// Sequential reference: the thread bodies one after another in one task, for every order of the
+/// threads; all orders must agree (the scenarios are built so that results do not depend on the
+/// order), otherwise the harness is wrong.
+fn compute_reference(s: &'static Scenario, plugin: &Option<String>) -> Result<Obs, ()> {
+    let mut reference: Option<Obs> = None;
+    for order in scen::permutations(s.threads.len()) {
+        let mode_name = format!("sequential:{}", order.iter().map(|x| x.to_string()).collect::<Vec<_>>().join("."));
+        with_child(|c| c.mode = mode_name.clone());
+        let (last, err, _) = run_single(s, Mode::Sequential(order.clone()), vec![], plugin.clone());
+        if let Some((oracle, kind, locks, detail)) = err {
+            print_failure(&oracle, &kind, &locks, &format!("in the sequential reference run: {}", detail));
+            return Err(());
+        }
+        let Some((obs, log)) = last else {
+            emit("M", &json!("reference run produced no observation"));
+            std::process::exit(2);
+        };
+        if self_deadlock_seen(&log) || with_child(|c| c.failure_printed) {
+            return Err(());
+        }
+        if log.leftover_guards != 0 {
+            emit("M", &json!("reference run left mirror guards behind"));
+            std::process::exit(2);
+        }
+        match &reference {
+            None => reference = Some(obs),
+            Some(r) => {
+                if *r != obs {
+                    emit("M", &json!(format!("scenario {}: sequential results depend on the thread order: {:?} vs {:?}", s.id, r, obs)));
+                    std::process::exit(2);
+                }
+            }
+        }
+    }
+    Ok(reference.unwrap())
+}
+
+fn obs_json(o: &Obs) -> Value {
+    json!({"setup": o.setup, "threads": o.results, "post": o.post})
+}
+
+fn first_difference(r: &Obs, o: &Obs) -> Option<(String, String)> {
+    if r.setup != o.setup {
+        return Some(("result_mismatch".into(), format!("setup results {:?}, sequential reference {:?}", o.setup, r.setup)));
+    }
+    for (i, (a, b)) in r.results.iter().zip(o.results.iter()).enumerate() {
+        if a != b {
+            return Some(("result_mismatch".into(), format!("thread {} observed {:?}, sequential reference {:?}", i + 1, b, a)));
+        }
+    }
+    if r.results.len() != o.results.len() {
+        return Some(("result_mismatch".into(), "different number of threads".into()));
+    }
+    if r.post != o.post {
+        return Some(("post_state_mismatch".into(), format!("after the threads joined: {:?}, sequential reference {:?}", o.post, r.post)));
+    }
+    None
+}
+
+/// Oracle for one completed concurrent execution. Returns the failure, if any.
+fn judge(obs: &Obs, log: &ExecLog, reference: &Obs) -> Option<(String, String, String, String)> {
+    if let Some((t, l)) = log.self_deadlock {
+        return Some(("deadlock".into(), "self_reentrant".into(), LOCK_NAMES[l].into(), format!("task{} re-acquired {}", t, LOCK_NAMES[l])));
+    }
+    if log.leftover_guards != 0 {
+        return Some(("lock_leak".into(), "guard_not_released".into(), String::new(), format!("{} cache guards still held after all threads joined", log.leftover_guards)));
+    }
+    first_difference(reference, obs).map(|(o, d)| (o, "differs_from_sequential".into(), String::new(), d))
+}
+
+// ---------------------------------------------------------------------------------------------
+// child: exploration of one scenario at one preemption bound (one chunk)
+
+fn parse_levels(s: &str) -> Vec<Level> {
+    if s.is_empty() {
+        return vec![];
+    }
+    s.split(',')
+        .map(|l| {
+            let (o, i) = l.split_once(':').unwrap_or_else(|| vcommon::machinery_error("bad --resume"));
+            Level { options: o.split('.').map(|x| x.parse().unwrap()).collect(), idx: i.parse().unwrap() }
+        })
+        .collect()
+}
+fn levels_str(l: &[Level]) -> String {
+    l.iter()
+        .map(|l| format!("{}:{}", l.options.iter().map(|x| x.to_string()).collect::<Vec<_>>().join("."), l.idx))
+        .collect::<Vec<_>>()
+        .join(",")
+}
+
+struct ChildArgs {
+    scenario: String,
+    bound: Option<u32>,
+    prev: Option<u32>,
+    max_exec: u64,
+    resume: Option<Vec<Level>>,
+    plugin: Option<String>,
+    mode: String,
+    schedule: Vec<u32>,
+}
+
+fn opt(extra: &[String], key: &str) -> Option<String> {
+    extra.iter().position(|a| a == key).and_then(|i| extra.get(i + 1).cloned())
+}
+
+fn child_args(extra: &[String], scenario: String) -> ChildArgs {
+    let bound = match opt(extra, "--bound").as_deref() {
+        None | Some("inf") => None,
+        Some(x) => Some(x.parse().unwrap_or_else(|_| vcommon::machinery_error("bad --bound"))),
+    };
+    let prev = match opt(extra, "--prev").as_deref() {
+        None | Some("none") => None,
+        Some(x) => Some(x.parse().unwrap_or_else(|_| vcommon::machinery_error("bad --prev"))),
+    };
+    ChildArgs {
+        scenario,
+        bound,
+        prev,
+        max_exec: opt(extra, "--max-exec").and_then(|x| x.parse().ok()).unwrap_or(u64::MAX),
+        resume: opt(extra, "--resume").map(|s| parse_levels(&s)),
+        plugin: opt(extra, "--plugin"),
+        mode: opt(extra, "--mode").unwrap_or_else(|| "concurrent".into()),
+        schedule: opt(extra, "--schedule")
+            .map(|s| s.split(',').filter(|x| !x.is_empty()).map(|x| x.parse().unwrap_or_else(|_| vcommon::machinery_error("bad --schedule"))).collect())
+            .unwrap_or_default(),
+    }
+}
+
+fn init_child(a: &ChildArgs) {
+    vcommon::quiet_panics();
+    shim::install();
+    let bound = a.bound.map(|b| b.to_string()).unwrap_or_else(|| "inf".into());
+    CHILD.with(|c| {
+        *c.borrow_mut() = Some(ChildCtx {
+            scenario: a.scenario.clone(),
+            bound,
+            prev: a.prev,
+            mode: "concurrent".into(),
+            reference: None,
+            last: None,
+            tally: Tally::default(),
+            stop: false,
+            failure_printed: false,
+        })
+    });
+}
+
+/// A scheduler wrapper that stops the exploration once a failure has been printed.
+struct Stoppable(PbDfs);
+impl shuttle::scheduler::Scheduler for Stoppable {
+    fn new_execution(&mut self) -> Option<shuttle::scheduler::Schedule> {
+        if with_child(|c| c.stop) {
+            self.0.shared.borrow_mut().stop_requested = true;
+        }
+        self.0.new_execution()
+    }
+    fn next_task(&mut self, r: &[&shuttle::scheduler::Task], c: Option<shuttle::scheduler::TaskId>, y: bool) -> Option<shuttle::scheduler::TaskId> {
+        self.0.next_task(r, c, y)
+    }
+    fn next_u64(&mut self) -> u64 {
+        0
+    }
+}
+
+fn child_explore(a: ChildArgs) -> ! {
+    init_child(&a);
+    let s = leak_scenario(&a.scenario);
+    let plugin = a.plugin.clone();
+    let reference = match compute_reference(s, &plugin) {
+        Ok(r) => r,
+        Err(()) => std::process::exit(0), // failure line already printed
+    };
+    with_child(|c| {
+        c.reference = Some(reference.clone());
+        c.mode = "concurrent".into();
+    });
+    let dfs = PbDfs::new(a.bound, a.max_exec, a.resume.clone());
+    let shared = dfs.shared.clone();
+    let plugin2 = plugin.clone();
+    let r = run_shuttle(Stoppable(dfs), move || {
+        shim::begin_execution();
+        let obs = scen::run_body(s, &Mode::Concurrent, &plugin2);
+        let log = shim::end_execution();
+        let failure = with_child(|c| {
+            let reference = c.reference.as_ref().unwrap();
+            let t = &mut c.tally;
+            t.executions += 1;
+            let is_new = c.prev.map(|p| log.preemptions > p).unwrap_or(true);
+            let contended = log.blocked > 0;
+            if is_new {
+                t.new_executions += 1;
+            }
+            if contended {
+                t.contended += 1;
+                if is_new {
+                    t.new_contended += 1;
+                }
+            }
+            t.contended_acquisitions += log.blocked as u64;
+            *t.preemption_histogram.entry(log.preemptions).or_insert(0) += 1;
+            t.schedule_hashes.insert(fnv(&log.path));
+            let nops = s.setup.len() + s.post.len() + s.threads.iter().map(|x| x.len()).sum::<usize>();
+            t.ops += nops as u64;
+            // oracle evaluations: termination + no panic (this line is only reached then),
+            // one comparison per operation result, lock-leak check
+            t.evaluations += 2 + nops as u64;
+            t.validated += 1;
+            let mut per_key: BTreeMap<&str, u64> = BTreeMap::new();
+            for (k, _) in &log.negotiations {
+                *per_key.entry(k).or_insert(0) += 1;
+            }
+            t.max_negotiations_per_key = t.max_negotiations_per_key.max(per_key.values().copied().max().unwrap_or(0));
+            let outcome = outcome_string(&log);
+            *t.outcomes.entry(outcome.clone()).or_insert(0) += 1;
+            let sample = json!({
+                "scenario": c.scenario, "bound": c.bound, "schedule": path_str(&log.path),
+                "preemptions": log.preemptions, "blocked_acquisitions": log.blocked,
+                "outcome": outcome, "results": obs_json(&obs),
+            });
+            if t.samples.len() < 2 || (contended && t.samples.len() < 3) {
+                t.samples.push(sample);
+            } else {
+                t.last_sample = Some(sample);
+            }
+            judge(&obs, &log, reference)
+        });
+        if let Some((oracle, kind, locks, detail)) = failure {
+            print_failure(&oracle, &kind, &locks, &detail);
+        }
+    });
+    if let Err((oracle, kind, locks, detail)) = r {
+        print_failure(&oracle, &kind, &locks, &detail);
+    }
+    let sh = shared.borrow();
+    let out = with_child(|c| {
+        let t = &mut c.tally;
+        let mut samples = t.samples.clone();
+        if let Some(l) = t.last_sample.take() {
+            samples.push(l);
+        }
+        json!({
+            "scenario": c.scenario, "bound": c.bound,
+            "executions": t.executions, "new_executions": t.new_executions,
+            "contended": t.contended, "new_contended": t.new_contended,
+            "contended_acquisitions": t.contended_acquisitions,
+            "ops": t.ops, "evaluations": t.evaluations, "validated": t.validated,
+            "distinct_schedules": t.schedule_hashes.len(),
+            "outcomes": t.outcomes, "samples": samples,
+            "max_negotiations_per_key": t.max_negotiations_per_key,
+            "preemption_histogram": t.preemption_histogram.iter().map(|(k, v)| (k.to_string(), json!(v))).collect::<Map<String, Value>>(),
+            "decisions": sh.decisions, "scheduler_executions": sh.executions,
+            "exhausted": sh.exhausted, "chunk_end": sh.chunk_end,
+            "levels": levels_str(&sh.levels), "max_depth": sh.max_depth,
+            "nondeterminism": sh.nondeterminism,
+            "failed": c.failure_printed,
+            "reference": obs_json(c.reference.as_ref().unwrap()),
+        })
+    });
+    emit("R", &out);
+    std::process::exit(0)
+}
+
+// ---------------------------------------------------------------------------------------------
+// child: replay of one recorded schedule
+
+fn child_replay(a: ChildArgs) -> ! {
+    init_child(&a);
+    let s = leak_scenario(&a.scenario);
+    let plugin = a.plugin.clone();
+    let mode = if let Some(order) = a.mode.strip_prefix("sequential:") {
+        Mode::Sequential(order.split('.').filter(|x| !x.is_empty()).map(|x| x.parse().unwrap()).collect())
+    } else if a.mode == "sequential" {
+        Mode::Sequential(vec![])
+    } else {
+        Mode::Concurrent
+    };
+    let mut reference = None;
+    if let Mode::Concurrent = mode {
+        match compute_reference(s, &plugin) {
+            Ok(r) => reference = Some(r),
+            Err(()) => {
+                emit("O", &json!({"failed": true, "oracle": "reference_failed", "kind": "", "note": "the sequential reference of this scenario fails (see the F line)"}));
+                std::process::exit(0)
+            }
+        }
+    }
+    with_child(|c| {
+        c.mode = a.mode.clone();
+        c.failure_printed = true; // a replay prints O lines, not F lines
+    });
+    let (last, err, sh) = run_single(s, mode, a.schedule.clone(), plugin);
+    let mut failure = err;
+    let sd = SHIM.with(|s| s.borrow().self_deadlock);
+    let mut obs_v = Value::Null;
+    let mut outcome = String::new();
+    let mut events = 0usize;
+    if let Some((obs, log)) = &last {
+        obs_v = obs_json(obs);
+        outcome = outcome_string(log);
+        events = log.events.len();
+        if failure.is_none() {
+            failure = match &reference {
+                Some(r) => judge(obs, log, r),
+                None => log.self_deadlock.map(|(t, l)| ("deadlock".to_string(), "self_reentrant".to_string(), LOCK_NAMES[l].to_string(), format!("task{} re-acquired {}", t, LOCK_NAMES[l]))),
+            };
+        }
+    }
+    if let (Some((t, l)), true) = (sd, failure.as_ref().map(|f| f.1 != "self_reentrant").unwrap_or(true)) {
+        // the self-deadlock marker wins over whatever the swallowed panic caused later
+        failure = Some(("deadlock".into(), "self_reentrant".into(), LOCK_NAMES[l].into(), format!("task{} re-acquired {}", t, LOCK_NAMES[l])));
+    }
+    let path = SHIM.with(|s| s.borrow().path.clone());
+    let out = json!({
+        "failed": failure.is_some(),
+        "oracle": failure.as_ref().map(|f| f.0.clone()),
+        "kind": failure.as_ref().map(|f| f.1.clone()),
+        "locks": failure.as_ref().map(|f| f.2.clone()),
+        "detail": failure.as_ref().map(|f| f.3.clone()),
+        "observed": obs_v,
+        "reference": reference.as_ref().map(obs_json),
+        "outcome": outcome,
+        "lock_events": events,
+        "executed_schedule": path_str(&path),
+        "diverged": sh.diverged,
+        "ran_past_recording": sh.ran_past_recording,
+    });
+    emit("O", &out);
+    std::process::exit(0)
+}
+
+// ---------------------------------------------------------------------------------------------
+// parent
+
+struct ChildOut {
+    lines: Vec<(char, Value)>,
+    status_ok: bool,
+    status: String,
+    stderr_tail: String,
+    timed_out: bool,
+}
+
+fn run_child(prop: &str, args: &[String], timeout_s: u64) -> ChildOut {
+    use std::process::{Command, Stdio};
+    let exe = std::env::current_exe().expect("current_exe");
+    let mut child = Command::new(exe)
+        .arg(prop)
+        .args(args)
+        .stdin(Stdio::null())
+        .stdout(Stdio::piped())
+        .stderr(Stdio::piped())
+        .spawn()
+        .unwrap_or_else(|e| vcommon::machinery_error(&format!("cannot spawn child: {}", e)));
+    let mut stdout = child.stdout.take().unwrap();
+    let mut stderr = child.stderr.take().unwrap();
+    let oh = std::thread::spawn(move || {
+        let mut b = Vec::new();
+        let _ = std::io::Read::read_to_end(&mut stdout, &mut b);
+        b
+    });
+    let eh = std::thread::spawn(move || {
+        let mut b = Vec::new();
+        let _ = std::io::Read::read_to_end(&mut stderr, &mut b);
+        b
+    });
+    // the wall clock only bounds a hung child (a machinery error), it never decides a verdict
+    let start = std::time::Instant::now();
+    let mut timed_out = false;
+    let status = loop {
+        match child.try_wait() {
+            Ok(Some(st)) => break st,
+            Ok(None) => {
+                if start.elapsed().as_secs() > timeout_s {
+                    timed_out = true;
+                    let _ = child.kill();
+                    break child.wait().expect("wait");
+                }
+                std::thread::sleep(std::time::Duration::from_millis(5));
+            }
+            Err(e) => vcommon::machinery_error(&format!("wait failed: {}", e)),
+        }
+    };
+    let out = String::from_utf8_lossy(&oh.join().unwrap_or_default()).to_string();
+    let err = String::from_utf8_lossy(&eh.join().unwrap_or_default()).to_string();
+    let mut lines = vec![];
+    for l in out.lines() {
+        let mut ch = l.chars();
+        let (Some(p), Some(' ')) = (ch.next(), ch.next()) else { continue };
+        if !"FROM".contains(p) {
+            continue;
+        }
+        if let Ok(v) = serde_json::from_str::<Value>(&l[2..]) {
+            lines.push((p, v));
+        }
+    }
+    ChildOut {
+        lines,
+        status_ok: status.success(),
+        status: format!("{:?}", status),
+        stderr_tail: err.chars().rev().take(1200).collect::<String>().chars().rev().collect(),
+        timed_out,
+    }
+}
+
+#[derive(Clone)]
+struct Job {
+    scenario: &'static str,
+    bound: Option<u32>,
+    prev: Option<u32>,
+}
+
+#[derive(Default)]
+struct JobResult {
+    executions: u64,
+    new_executions: u64,
+    contended: u64,
+    new_contended: u64,
+    contended_acquisitions: u64,
+    ops: u64,
+    evaluations: u64,
+    validated: u64,
+    distinct_schedules: u64,
+    decisions: u64,
+    outcomes: BTreeMap<String, u64>,
+    samples: Vec<Value>,
+    max_negotiations_per_key: u64,
+    max_depth: u64,
+    histogram: BTreeMap<String, u64>,
+    exhausted: bool,
+    cap_hit: bool,
+    chunks: u64,
+    failure: Option<Value>,
+    reference: Value,
+}
+
+struct Limits {
+    chunk: u64,
+    max_exec_per_job: u64,
+    child_timeout_s: u64,
+}
+
+fn bound_name(b: Option<u32>) -> String {
+    b.map(|x| x.to_string()).unwrap_or_else(|| "inf".into())
+}
+
+fn run_job(prop: &str, job: &Job, lim: &Limits, plugin: &Option<String>) -> JobResult {
+    let mut res = JobResult::default();
+    let mut resume: Option<String> = None;
+    loop {
+        let mut args: Vec<String> = vec![
+            "--child-explore".into(),
+            job.scenario.into(),
+            "--bound".into(),
+            bound_name(job.bound),
+            "--prev".into(),
+            job.prev.map(|p| p.to_string()).unwrap_or_else(|| "none".into()),
+            "--max-exec".into(),
+            lim.chunk.to_string(),
+        ];
+        if let Some(r) = &resume {
+            args.push("--resume".into());
+            args.push(r.clone());
+        }
+        if let Some(p) = plugin {
+            args.push("--plugin".into());
+            args.push(p.clone());
+        }
+        let out = run_child(prop, &args, lim.child_timeout_s);
+        res.chunks += 1;
+        if let Some((_, m)) = out.lines.iter().find(|(p, _)| *p == 'M') {
+            vcommon::machinery_error(&format!("scenario {} bound {}: {}", job.scenario, bound_name(job.bound), m));
+        }
+        let f = out.lines.iter().find(|(p, _)| *p == 'F').map(|(_, v)| v.clone());
+        let r = out.lines.iter().find(|(p, _)| *p == 'R').map(|(_, v)| v.clone());
+        if let Some(f) = f {
+            // counts of the failing chunk are still added when available
+            if let Some(r) = &r {
+                add_chunk(&mut res, r);
+            }
+            res.failure = Some(f);
+            return res;
+        }
+        if out.timed_out {
+            vcommon::machinery_error(&format!(
+                "scenario {} bound {}: child did not finish within {} s (a hang that the lock model does not explain); stderr: {}",
+                job.scenario,
+                bound_name(job.bound),
+                lim.child_timeout_s,
+                out.stderr_tail
+            ));
+        }
+        let Some(r) = r else {
+            vcommon::machinery_error(&format!(
+                "scenario {} bound {}: child ended without a result ({}); stderr: {}",
+                job.scenario,
+                bound_name(job.bound),
+                out.status,
+                out.stderr_tail
+            ));
+        };
+        if !out.status_ok {
+            vcommon::machinery_error(&format!("scenario {} bound {}: child status {}", job.scenario, bound_name(job.bound), out.status));
+        }
+        if let Some(n) = r["nondeterminism"].as_str() {
+            vcommon::machinery_error(&format!("scenario {} bound {}: nondeterministic execution: {}", job.scenario, bound_name(job.bound), n));
+        }
+        add_chunk(&mut res, &r);
+        if r["exhausted"].as_bool() == Some(true) {
+            res.exhausted = true;
+            return res;
+        }
+        if r["chunk_end"].as_bool() != Some(true) {
+            vcommon::machinery_error(&format!("scenario {} bound {}: exploration stopped for no reason: {}", job.scenario, bound_name(job.bound), r));
+        }
+        if res.executions >= lim.max_exec_per_job {
+            res.cap_hit = true;
+            return res;
+        }
+        resume = Some(r["levels"].as_str().unwrap_or("").to_string());
+    }
+}
+
+fn add_chunk(res: &mut JobResult, r: &Value) {
+    let g = |k: &str| r[k].as_u64().unwrap_or(0);
+    res.executions += g("executions");
+    res.new_executions += g("new_executions");
+    res.contended += g("contended");
+    res.new_contended += g("new_contended");
+    res.contended_acquisitions += g("contended_acquisitions");
+    res.ops += g("ops");
+    res.evaluations += g("evaluations");
+    res.validated += g("validated");
+    res.distinct_schedules += g("distinct_schedules");
+    res.decisions += g("decisions");
+    res.max_negotiations_per_key = res.max_negotiations_per_key.max(g("max_negotiations_per_key"));
+    res.max_depth = res.max_depth.max(g("max_depth"));
+    if let Some(o) = r["outcomes"].as_object() {
+        for (k, v) in o {
+            *res.outcomes.entry(k.clone()).or_insert(0) += v.as_u64().unwrap_or(0);
+        }
+    }
+    if let Some(o) = r["preemption_histogram"].as_object() {
+        for (k, v) in o {
+            *res.histogram.entry(k.clone()).or_insert(0) += v.as_u64().unwrap_or(0);
+        }
+    }
+    if let Some(s) = r["samples"].as_array() {
+        for x in s {
+            if res.samples.len() < 3 {
+                res.samples.push(x.clone());
+            }
+        }
+    }
+    res.reference = r["reference"].clone();
+}
+
+fn run_jobs(prop: &str, jobs: &[Job], lim: &Limits, plugin: &Option<String>, workers: usize) -> Vec<JobResult> {
+    let next = std::sync::atomic::AtomicUsize::new(0);
+    let results: Vec<std::sync::Mutex<Option<JobResult>>> = jobs.iter().map(|_| std::sync::Mutex::new(None)).collect();
+    std::thread::scope(|sc| {
+        for _ in 0..workers.max(1) {
+            sc.spawn(|| loop {
+                let i = next.fetch_add(1, std::sync::atomic::Ordering::SeqCst);
+                if i >= jobs.len() {
+                    break;
+                }
+                let r = run_job(prop, &jobs[i], lim, plugin);
+                *results[i].lock().unwrap() = Some(r);
+            });
+        }
+    });
+    results.into_iter().map(|m| m.into_inner().unwrap().expect("job result")).collect()
+}
+
+/// Replays a failure in two fresh processes. Ok(observation) if both agree and still fail.
+fn confirm(prop: &str, f: &Value, plugin: &Option<String>, timeout_s: u64) -> Result<Value, String> {
+    let mut obs = vec![];
+    for _ in 0..2 {
+        let mut args: Vec<String> = vec![
+            "--child-replay".into(),
+            f["scenario"].as_str().unwrap_or("").into(),
+            "--mode".into(),
+            f["mode"].as_str().unwrap_or("concurrent").into(),
+            "--schedule".into(),
+            f["schedule"].as_str().unwrap_or("").into(),
+        ];
+        if let Some(p) = plugin {
+            args.push("--plugin".into());
+            args.push(p.clone());
+        }
+        let out = run_child(prop, &args, timeout_s);
+        if out.timed_out {
+            return Err("replay child timed out".into());
+        }
+        let Some((_, o)) = out.lines.iter().find(|(p, _)| *p == 'O') else {
+            return Err(format!("replay child gave no observation ({}): {}", out.status, out.stderr_tail));
+        };
+        obs.push(o.clone());
+    }
+    if obs[0] != obs[1] {
+        return Err(format!("two replays of the same schedule differ: {} vs {}", obs[0], obs[1]));
+    }
+    if let Some(d) = obs[0]["diverged"].as_str() {
+        return Err(format!("replay diverged from the recorded schedule: {}", d));
+    }
+    if obs[0]["failed"].as_bool() != Some(true) {
+        return Err(format!("the failure did not reproduce under the recorded schedule: {}", obs[0]));
+    }
+    if obs[0]["oracle"] != f["oracle"] || obs[0]["kind"] != f["kind"] {
+        return Err(format!("replay fails differently: explored {} / {}, replay {} / {}", f["oracle"], f["kind"], obs[0]["oracle"], obs[0]["kind"]));
+    }
+    Ok(obs[0].clone())
+}
+
+fn build_plugin() -> Result<String, String> {
+    let root = vcommon::verif_root();
+    let target = root.join(".work").join("vconc-plugin-target");
+    let _ = std::fs::create_dir_all(&target);
+    let out = std::process::Command::new("cargo")
+        .current_dir("/repo")
+        .args(["build", "--offline", "--locked", "-q", "--manifest-path", "/repo/savefile-abi-min-lib-impl/Cargo.toml", "--target-dir"])
+        .arg(&target)
+        .env_remove("CARGO_TARGET_DIR")
+        .env_remove("RUSTFLAGS")
+        .env_remove("CARGO_ENCODED_RUSTFLAGS")
+        .output()
+        .map_err(|e| format!("cannot run cargo: {}", e))?;
+    if !out.status.success() {
+        let e = String::from_utf8_lossy(&out.stderr);
+        return Err(format!("cargo build of savefile-abi-min-lib-impl failed: {}", e.chars().take(600).collect::<String>()));
+    }
+    let so = target.join("debug").join("libsavefile_abi_min_lib_impl.so");
+    if !so.exists() {
+        return Err(format!("{} not produced", so.display()));
+    }
+    Ok(so.to_string_lossy().to_string())
+}
+
+struct SelfTest {
+    report: Value,
+}
+
+/// Detection self-test of the explorer itself (not part of the C16 verdict): the injected
+/// lock-order inversion must be reported as a deadlock and the lost update as a result mismatch,
+/// each with a schedule that reproduces twice.
+fn selftest(prop: &str, lim: &Limits) -> SelfTest {
+    let mut rep = Map::new();
+    for (id, want_oracle) in [("X1", "deadlock"), ("X2", "post_state_mismatch")] {
+        let mut per_bound = vec![];
+        let mut found: Option<(u32, Value)> = None;
+        let mut prev = None;
+        for b in 0..=2u32 {
+            let r = run_job(prop, &Job { scenario: id, bound: Some(b), prev }, lim, &None);
+            per_bound.push(json!({"bound": b, "schedules": r.executions, "exhausted": r.exhausted, "failed": r.failure.is_some()}));
+            if let Some(f) = r.failure {
+                found = Some((b, f));
+                break;
+            }
+            prev = Some(b);
+        }
+        let Some((b, f)) = found else {
+            vcommon::machinery_error(&format!("self-test {}: the injected defect was not found with up to 2 preemptions", id));
+        };
+        if f["oracle"].as_str() != Some(want_oracle) {
+            vcommon::machinery_error(&format!("self-test {}: expected oracle {}, got {}", id, want_oracle, f));
+        }
+        if b == 0 {
+            vcommon::machinery_error(&format!("self-test {}: failure without any preemption, the self-test harness is wrong: {}", id, f));
+        }
+        match confirm(prop, &f, &None, lim.child_timeout_s) {
+            Ok(_) => {}
+            Err(e) => vcommon::machinery_error(&format!("self-test {}: {}", id, e)),
+        }
+        rep.insert(
+            id.to_string(),
+            json!({
+                "expected": want_oracle, "found_at_bound": b, "executions_before_failure": f["executions_before"],
+                "schedule": f["schedule"], "detail": f["detail"], "replayed_twice_identical": true, "per_bound": per_bound,
+            }),
+        );
+    }
+    SelfTest { report: Value::Object(rep) }
+}
+
+fn replay_mode(prop: &str, path: &std::path::Path) -> ! {
+    let text = std::fs::read_to_string(path).unwrap_or_else(|e| vcommon::machinery_error(&format!("cannot read {}: {}", path.display(), e)));
+    let doc: Value = serde_json::from_str(&text).unwrap_or_else(|e| vcommon::machinery_error(&format!("bad replay file: {}", e)));
+    let case = &doc["case"];
+    let scenario = case["scenario"].as_str().unwrap_or("");
+    let Some(s) = scen::by_id(scenario) else { vcommon::machinery_error("replay file names an unknown scenario") };
+    let plugin = if s.needs_plugin {
+        match build_plugin() {
+            Ok(p) => Some(p),
+            Err(e) => vcommon::machinery_error(&e),
+        }
+    } else {
+        None
+    };
+    println!("replaying scenario {} ({}), mode {}, schedule [{}]", scenario, s.title, case["mode"].as_str().unwrap_or("concurrent"), case["schedule"].as_str().unwrap_or(""));
+    match confirm(prop, case, &plugin, 600) {
+        Ok(o) => {
+            println!("still fails (two identical replays): oracle={} kind={} locks={}", o["oracle"], o["kind"], o["locks"]);
+            println!("  {}", o["detail"].as_str().unwrap_or(""));
+            println!("  observed: {}", o["observed"]);
+            println!("  reference: {}", o["reference"]);
+            std::process::exit(1)
+        }
+        Err(e) => {
+            if e.starts_with("the failure did not reproduce") {
+                println!("passes now: {}", e);
+                std::process::exit(0)
+            }
+            if e.starts_with("replay fails differently") {
+                println!("fails, but differently: {}", e);
+                std::process::exit(1)
+            }
+            vcommon::machinery_error(&format!("replay: {}", e))
+        }
+    }
+}
+
 fn main() {
-    vcommon::machinery_error("vconc not implemented yet");
+    let args = vcommon::parse_args();
+    if args.property != "C16" {
+        vcommon::machinery_error(&format!("vconc serves C16, not {}", args.property));
+    }
+    if let Some(id) = opt(&args.extra, "--child-explore") {
+        child_explore(child_args(&args.extra, id));
+    }
+    if let Some(id) = opt(&args.extra, "--child-replay") {
+        child_replay(child_args(&args.extra, id));
+    }
+    let prop = args.property.clone();
+    if let Some(p) = &args.replay {
+        replay_mode(&prop, p);
+    }
+    let thorough = args.tier == vcommon::Tier::Thorough;
+    let lim = Limits {
+        chunk: 20_000,
+        max_exec_per_job: if thorough { 6_000_000 } else { 400_000 },
+        child_timeout_s: if thorough { 1500 } else { 120 },
+    };
+    if args.extra.iter().any(|a| a == "--selftest") {
+        let st = selftest(&prop, &lim);
+        println!("{}", serde_json::to_string_pretty(&st.report).unwrap());
+        println!("SELFTEST OK");
+        std::process::exit(0);
+    }
+    let mut run = vcommon::Run::new(&args, "model_checking");
+    let workers = std::thread::available_parallelism().map(|n| n.get()).unwrap_or(4).min(16);
+
+    // 0. the explorer must find the two injected defects
+    let st = selftest(&prop, &lim);
+
+    // 1. optional real cdylib
+    let mut plugin = None;
+    let mut plugin_note = "not built in the quick tier".to_string();
+    if thorough {
+        match build_plugin() {
+            Ok(p) => {
+                plugin_note = format!("built {}", p);
+                plugin = Some(p);
+            }
+            Err(e) => {
+                plugin_note = format!("S4p skipped: {}", e);
+                run.notes.push(plugin_note.clone());
+            }
+        }
+    }
+
+    // 2. jobs: scenario x bound (iterative context bounding)
+    let scenarios: Vec<Scenario> = scen::all().into_iter().filter(|s| !s.selftest && (thorough || !s.thorough_only) && (!s.needs_plugin || plugin.is_some())).collect();
+    let mut jobs = vec![];
+    for s in &scenarios {
+        let maxb = if thorough { 3 } else { 2 };
+        let mut prev = None;
+        let nb = if s.threads.is_empty() { 0 } else { maxb };
+        for b in 0..=nb {
+            jobs.push(Job { scenario: s.id, bound: Some(b), prev });
+            prev = Some(b);
+        }
+        if thorough && s.unbounded_in_thorough {
+            jobs.push(Job { scenario: s.id, bound: None, prev });
+        }
+    }
+    let results = run_jobs(&prop, &jobs, &lim, &plugin, workers);
+
+    // 3. aggregate
+    let mut per_scenario = Map::new();
+    let mut states = 0u64;
+    let mut transitions = 0u64;
+    let mut validated = 0u64;
+    let mut evaluations = 0u64;
+    let mut nontrivial = 0u64;
+    let mut ops = 0u64;
+    let mut exhaustive = true;
+    let mut all_outcomes = 0u64;
+    let mut samples: Vec<Value> = vec![];
+    for s in &scenarios {
+        let mut bounds = vec![];
+        let mut outcomes: BTreeSet<String> = BTreeSet::new();
+        let mut reported = false;
+        let mut prev_total: Option<u64> = None;
+        let mut contended_any = 0u64;
+        let mut completed_bound = "none".to_string();
+        for (j, r) in jobs.iter().zip(results.iter()) {
+            if j.scenario != s.id {
+                continue;
+            }
+            let bname = bound_name(j.bound);
+            if let Some(f) = &r.failure {
+                if !reported {
+                    reported = true;
+                    match confirm(&prop, f, &plugin, lim.child_timeout_s) {
+                        Ok(o) => {
+                            let tags = vcommon::tags(&[
+                                ("scenario", s.id.to_string()),
+                                ("kind", f["kind"].as_str().unwrap_or("").to_string()),
+                                ("lock", f["locks"].as_str().unwrap_or("").to_string()),
+                                ("mode", f["mode"].as_str().unwrap_or("").split(':').next().unwrap_or("").to_string()),
+                            ]);
+                            run.violation(vcommon::Violation {
+                                oracle: f["oracle"].as_str().unwrap_or("").to_string(),
+                                tags,
+                                summary: format!(
+                                    "scenario {} ({}), bound {}, schedule [{}]: {}",
+                                    s.id,
+                                    s.title,
+                                    bname,
+                                    f["schedule"].as_str().unwrap_or(""),
+                                    f["detail"].as_str().unwrap_or("")
+                                ),
+                                case: json!({
+                                    "scenario": s.id, "title": s.title, "mode": f["mode"], "schedule": f["schedule"],
+                                    "bound": bname, "oracle": f["oracle"], "kind": f["kind"], "locks": f["locks"],
+                                    "setup": format!("{:?}", s.setup), "threads": format!("{:?}", s.threads), "post": format!("{:?}", s.post),
+                                    "observed": o["observed"], "reference": o["reference"], "detail": f["detail"],
+                                }),
+                            });
+                        }
+                        Err(e) => vcommon::machinery_error(&format!("scenario {} bound {}: {} (failure line: {})", s.id, bname, e, f)),
+                    }
+                }
+            } else {
+                // consistency of iterative bounding: bound p = bound p-1 plus the schedules that
+                // use more preemptions
+                if let Some(pt) = prev_total {
+                    if !r.cap_hit && r.executions != pt + r.new_executions {
+                        vcommon::machinery_error(&format!(
+                            "scenario {} bound {}: {} schedules, but previous bound had {} and {} use more preemptions",
+                            s.id, bname, r.executions, pt, r.new_executions
+                        ));
+                    }
+                }
+                if r.distinct_schedules != r.executions {
+                    vcommon::machinery_error(&format!("scenario {} bound {}: {} executions but {} distinct schedules", s.id, bname, r.executions, r.distinct_schedules));
+                }
+                if r.exhausted {
+                    completed_bound = bname.clone();
+                    prev_total = Some(r.executions);
+                } else {
+                    prev_total = None;
+                }
+            }
+            if r.cap_hit {
+                exhaustive = false;
+                run.notes.push(format!("scenario {} bound {}: execution cap {} hit, not exhaustive at this bound", s.id, bname, lim.max_exec_per_job));
+            }
+            states += r.new_executions;
+            nontrivial += r.new_contended;
+            transitions += r.decisions;
+            validated += r.validated;
+            evaluations += r.evaluations;
+            ops += r.ops;
+            contended_any += r.contended;
+            for k in r.outcomes.keys() {
+                outcomes.insert(k.clone());
+            }
+            for x in &r.samples {
+                if samples.len() < 14 && (samples.iter().filter(|y| y["scenario"] == x["scenario"]).count() < 1 || x["blocked_acquisitions"].as_u64().unwrap_or(0) > 0 && samples.iter().filter(|y| y["scenario"] == x["scenario"]).count() < 2) {
+                    samples.push(x.clone());
+                }
+            }
+            bounds.push(json!({
+                "bound": bname, "schedules": r.executions, "new_at_this_bound": r.new_executions,
+                "with_blocked_acquisition": r.contended, "scheduling_decisions": r.decisions,
+                "max_depth": r.max_depth, "exhausted": r.exhausted, "processes": r.chunks,
+                "by_preemptions": r.histogram, "failed": r.failure.is_some(),
+            }));
+        }
+        // vacuity guards for the racing scenarios
+        if !reported && s.threads.len() >= 2 {
+            if outcomes.len() < 2 {
+                vcommon::machinery_error(&format!("scenario {}: only {} distinct outcome(s): the threads never raced", s.id, outcomes.len()));
+            }
+            if contended_any == 0 {
+                vcommon::machinery_error(&format!("scenario {}: no execution with a blocked acquisition", s.id));
+            }
+        }
+        all_outcomes += outcomes.len() as u64;
+        let maxneg = jobs.iter().zip(results.iter()).filter(|(j, _)| j.scenario == s.id).map(|(_, r)| r.max_negotiations_per_key).max().unwrap_or(0);
+        per_scenario.insert(
+            s.id.to_string(),
+            json!({
+                "title": s.title, "threads": s.threads.len(),
+                "setup": format!("{:?}", s.setup), "thread_ops": format!("{:?}", s.threads), "post": format!("{:?}", s.post),
+                "bounds": bounds, "completed_bound": completed_bound,
+                "distinct_outcomes": outcomes.len(), "outcomes": outcomes.iter().take(12).collect::<Vec<_>>(),
+                "max_negotiations_per_cache_key": maxneg,
+                "violation": reported,
+            }),
+        );
+    }
+    if samples.is_empty() {
+        samples.push(json!("no completed execution"));
+    }
+    run.exhaustive = exhaustive;
+    let mut cov = Map::new();
+    cov.insert("states".into(), json!(states.max(1)));
+    cov.insert("transitions".into(), json!(transitions));
+    cov.insert("traces_validated_against_impl".into(), json!(validated));
+    cov.insert("evaluations".into(), json!(evaluations));
+    cov.insert("distinct_nontrivial".into(), json!(nontrivial));
+    cov.insert(
+        "rule".into(),
+        json!("state = (scenario, schedule): every schedule of the scenario's tasks with at most p preemptions, enumerated depth first for p = 0,1,2(,3,unbounded); a schedule is counted once, at the smallest bound that contains it. transitions = scheduling decisions. non-trivial = during the execution at least one task was BLOCKED in Guard::lock on a cache mutex held by another task (seen by the scheduler as a waiting task that is not runnable)"),
+    );
+    cov.insert("samples".into(), Value::Array(samples));
+    cov.insert("exhaustive".into(), json!(exhaustive));
+    cov.insert("implementation_operations".into(), json!(ops));
+    cov.insert("distinct_outcomes".into(), json!(all_outcomes));
+    cov.insert("preemption_bounds".into(), json!(if thorough { "0..3, unbounded for S1 and S2" } else { "0..2" }));
+    cov.insert("scenarios".into(), Value::Object(per_scenario));
+    cov.insert("explorer_selftest".into(), st.report);
+    cov.insert("cdylib".into(), json!(plugin_note));
+    cov.insert("caps".into(), json!({"executions_per_scenario_and_bound": lim.max_exec_per_job, "executions_per_process": lim.chunk, "scheduling_decisions_per_execution": MAX_STEPS}));
+    let assumptions = vec![
+        "scheduling points are the operations on the three cache mutexes (before acquire, before release, blocking), thread spawn/join and task exit; the code between two scheduling points is atomic".to_string(),
+        "memory-ordering effects are not modelled (sequentially consistent, one OS thread); data races on unguarded data are invisible".to_string(),
+        "code of a dynamically loaded library (including its own copy of the savefile-abi caches) is atomic".to_string(),
+        "the verif_hooks callbacks in Guard::lock are the only way the cache mutexes are taken; a cache mutex taken elsewhere is outside the model".to_string(),
+        "closed harnesses of 2-3 threads with 1-3 operations each; preemption bound as stated".to_string(),
+    ];
+    run.finish(cov, assumptions)
 }
